@@ -20,7 +20,7 @@ import (
 
 func main() {
 	hx.Main(map[string]func(*hx.Ctx){"c06": runC06, "c08": runC08, "c12": runC12, "c13": runC13, "c14": runC14, "c15": runC15, "c16": runC16,
-		"e2e": func(c *hx.Ctx) { endToEnd(newOut(c), c) }})
+		"e2e": func(c *hx.Ctx) { endToEnd(newOut(c), c) }, "wrap": func(c *hx.Ctx) { wrapResend(newOut(c), c) }})
 }
 
 type sys struct {
@@ -39,7 +39,7 @@ func startSys(window int, queue int) *sys {
 	if queue > 0 {
 		b.SessionQueueSize = queue
 	}
-	b.KillTimeout = 3 * long // never reached unless something is stuck: gates are released within `long`
+	b.KillTimeout = long // never reached unless something is stuck: a gate is held for an absence window, not longer
 	e := broker.NewEngine(b)
 	port, quit, done := broker.Run(e, "tcp")
 	return &sys{backend: b, engine: e, port: port, quit: quit, done: done}
@@ -79,17 +79,11 @@ func parsePayload(b []byte) (pub, qos, n int, ok bool) {
 	return pub, qos, n, e1 == nil && e2 == nil && e3 == nil
 }
 
+// ackCount: PUBACK and PUBCOMP packets the peer has received (its completed QoS 1 / QoS 2 publishes)
 func ackCount(p *peer) int {
 	p.mu.Lock()
 	defer p.mu.Unlock()
-	acks := 0
-	for _, g := range p.all {
-		switch g.(type) {
-		case *packet.Puback, *packet.Pubcomp:
-			acks++
-		}
-	}
-	return acks
+	return p.nAcks
 }
 
 // publish n numbered messages at each QoS, never more than 5 QoS>0 publishes unacknowledged (a
